@@ -8,7 +8,7 @@ Local Open Scope string_scope.
 Local Open Scope Z_scope.
 
 (* ------------------------------------------------------------------ single_color_dir_disjoint *)
-(* a single-colour file is  single_color_tiles/<rrggbb>.<ext>  (two components below cache_dir); no tile path of
+(* a single-colour file is  single_color_tiles/<rrggbb[aa]>.<ext>  (two components below cache_dir); no tile path of
    the six layouts has two components *)
 Lemma sc_path_length : forall ext c, List.length (sc_path ext c) = 2%nat.
 Proof. reflexivity. Qed.
@@ -119,7 +119,7 @@ Qed.
 
 (* and the histories: a store under TIME=b changes what TIME=a returns *)
 Definition f4_history : list op :=
-  [Store (A 1 1 1 [("time", "a")]) [1; 2; 3; 4]; Store (A 1 1 1 [("time", "b")]) [5; 6; 7; 8]; Load (A 1 1 1 [("time", "a")])].
+  [Store (A 1 1 1 [("time", "a")]) [3; 1; 2; 3; 4]; Store (A 1 1 1 [("time", "b")]) [3; 5; 6; 7; 8]; Load (A 1 1 1 [("time", "a")])].
 
 Lemma arcgis_refines_map_refuted :
   exists ops, Forall (fop_ok (file_valid [s2t "time"]) 4) ops /\ model_outs (BFile "arcgis" LNone) ops <> spec_outs ops.
@@ -133,7 +133,7 @@ Qed.
 Lemma quadkey_refines_map_refuted :
   exists ops, Forall (fop_ok (nodim_valid []) 4) ops /\ model_outs (BFile "quadkey" LNone) ops <> spec_outs ops.
 Proof.
-  exists [Store (A 0 0 0 []) [1; 2; 3; 4]; Store (A 1 0 0 []) [5; 6; 7; 8]; Load (A 0 0 0 [])]. split.
+  exists [Store (A 0 0 0 []) [3; 1; 2; 3; 4]; Store (A 1 0 0 []) [3; 5; 6; 7; 8]; Load (A 0 0 0 [])]. split.
   - unfold fop_ok, op_ok, payload_ok, nodim_valid, coords_ok, colour. repeat constructor; cbn; try lia.
   - intros E. vm_compute in E. discriminate.
 Qed.
@@ -191,11 +191,11 @@ Qed.
 
 (* ------------------------------------------------------------------ non-vacuity *)
 Example tc_history_example :
-  let ops := [Store (A 999 0 0 [("time", "a")]) [7; 7; 7; 7]; Store (A 1000 0 0 [("time", "a")]) [7; 7; 7; 7];
-              Store (A 999 0 0 [("time", "b")]) [1; 2; 3; 4]; Remove (A 1000 0 0 [("time", "a")]);
+  let ops := [Store (A 999 0 0 [("time", "a")]) [3; 7; 7; 7; 7]; Store (A 1000 0 0 [("time", "a")]) [3; 7; 7; 7; 7];
+              Store (A 999 0 0 [("time", "b")]) [3; 1; 2; 3; 4]; Remove (A 1000 0 0 [("time", "a")]);
               LoadMany [A 999 0 0 [("time", "a")]; A 1000 0 0 [("time", "a")]; A 999 0 0 [("time", "b")]]] in
   Forall (fop_ok (file_valid [s2t "time"]) 4) ops /\
-  model_outs (BFile "tc" LSym) ops = [ODone; ODone; ODone; ODone; OLoadMany false [Some [7; 7; 7; 7]; None; Some [1; 2; 3; 4]]].
+  model_outs (BFile "tc" LSym) ops = [ODone; ODone; ODone; ODone; OLoadMany false [Some [3; 7; 7; 7; 7]; None; Some [3; 1; 2; 3; 4]]].
 Proof.
   split.
   - unfold fop_ok, op_ok, payload_ok, file_valid, coords_ok, colour. repeat constructor; cbn; try lia.
